@@ -206,6 +206,81 @@ fn execute_inner(parallel: bool, n: usize, fail_calls: &[usize], pool: Option<&r
     (None, calls)
 }
 
+/// Populations that are sets (the `Population` blanket implementation covers them): children that collide
+/// make the population smaller, and the next step has to make as many children as the population has *then*.
+/// The child maker numbers its calls and produces `call % modulus`, so the set a step must produce is known.
+pub struct SetMaker {
+    pub modulus: u64,
+    pub calls: std::sync::Arc<AtomicUsize>,
+    pub seen_sizes: Mutex<Vec<usize>>,
+}
+impl Composable for SetMaker {}
+impl<'a> Operator<&'a std::collections::BTreeSet<u64>> for SetMaker {
+    type Output = u64;
+    type Error = Injected;
+    fn apply<R: Rng + ?Sized>(&self, p: &'a std::collections::BTreeSet<u64>, rng: &mut R) -> Result<u64, Injected> {
+        let k = self.calls.fetch_add(1, Ordering::SeqCst) as u64;
+        let _ = rng.next_u64();
+        self.seen_sizes.lock().unwrap().push(p.len());
+        Ok(1_000_000 + k % self.modulus)
+    }
+}
+impl<'a> Operator<&'a std::collections::HashSet<u64>> for SetMaker {
+    type Output = u64;
+    type Error = Injected;
+    fn apply<R: Rng + ?Sized>(&self, p: &'a std::collections::HashSet<u64>, rng: &mut R) -> Result<u64, Injected> {
+        let k = self.calls.fetch_add(1, Ordering::SeqCst) as u64;
+        let _ = rng.next_u64();
+        self.seen_sizes.lock().unwrap().push(p.len());
+        Ok(1_000_000 + k % self.modulus)
+    }
+}
+
+/// one scenario: initial size n, modulus m, `steps` steps; returns a violation if any
+pub fn set_scenario(parallel: bool, hash: bool, n: usize, m: u64, steps: usize, pool: Option<&rayon::ThreadPool>) -> Option<(&'static str, String)> {
+    use std::collections::{BTreeSet, HashSet};
+    let calls = std::sync::Arc::new(AtomicUsize::new(0));
+    let maker = SetMaker { modulus: m, calls: calls.clone(), seen_sizes: Mutex::new(vec![]) };
+    let initial: Vec<u64> = (0..n as u64).collect();
+    // the same driver for both set types
+    macro_rules! drive {
+        ($set:ty) => {{
+            let mut g: Generation<$set, SetMaker> = Generation::new(maker, initial.iter().copied().collect::<$set>());
+            let mut size = n;
+            let mut base = 0u64;
+            for step in 1..=steps {
+                let r = mcx::guarded(|| match (parallel, pool) {
+                    (true, Some(p)) => p.install(|| g.par_next()),
+                    (true, None) => g.par_next(),
+                    _ => g.serial_next(),
+                });
+                match r {
+                    Err(p) => return Some(("set/panic", format!("step {step} panicked: {p}"))),
+                    Ok(Err(e)) => return Some(("set/error", format!("step {step} failed with {e:?} although no child maker call fails"))),
+                    Ok(Ok(())) => {}
+                }
+                let made = calls.load(Ordering::SeqCst) as u64 - base;
+                if made != size as u64 {
+                    return Some(("set/calls", format!("step {step}: the population had {size} members, {made} children were made")));
+                }
+                let want: BTreeSet<u64> = (base..base + made).map(|k| 1_000_000 + k % m).collect();
+                let got: BTreeSet<u64> = g.population().iter().copied().collect();
+                if got != want {
+                    return Some(("set/population", format!("step {step}: the new population has {} members, the {made} children made form a set of {}", got.len(), want.len())));
+                }
+                base += made;
+                size = got.len();
+            }
+            None
+        }};
+    }
+    if hash {
+        drive!(HashSet<u64>)
+    } else {
+        drive!(BTreeSet<u64>)
+    }
+}
+
 pub fn failure_plans(n: usize) -> Vec<Vec<usize>> {
     let mut v = vec![vec![]];
     for i in 0..n {
@@ -278,12 +353,37 @@ pub fn run(run: &mut Run) {
         }
     }
     run.bound("tierA.large_populations", json!(big_sizes));
+    // set populations: sizes x moduli (collisions shrink the set) x 3 steps, serial and on pools of 1, 3, 16
+    for n in (0..=12usize).chain([40, 257]) {
+        for m in [1u64, 2, 3, 5, 7, 1000] {
+            for hash in [false, true] {
+                configs += 1;
+                execs += 1;
+                if let Some((k, w)) = set_scenario(false, hash, n, m, 3, None) {
+                    run.violation(format!("serial_next/{k}"), format!("serial_next on a {} of {n}, child values = call number mod {m}: {w}", if hash { "HashSet" } else { "BTreeSet" }), json!({"check":"C09","variant":"set","parallel":false,"hash":hash,"n":n,"m":m,"threads":0}));
+                }
+                for (pi, t) in pools.iter().enumerate() {
+                    if ![1usize, 3, 16].contains(t) {
+                        continue;
+                    }
+                    configs += 1;
+                    for _ in 0..if quick { 3 } else { 20 } {
+                        execs += 1;
+                        if let Some((k, w)) = set_scenario(true, hash, n, m, 3, Some(&built[pi])) {
+                            run.violation(format!("par_next/{k}"), format!("par_next on a {} of {n}, child values = call number mod {m}, {t} threads: {w}", if hash { "HashSet" } else { "BTreeSet" }), json!({"check":"C09","variant":"set","parallel":true,"hash":hash,"n":n,"m":m,"threads":t}));
+                        }
+                    }
+                }
+            }
+        }
+    }
+    run.bound("tierA.set_populations", json!("BTreeSet / HashSet of 0..=12, 40, 257 members x child values = call number mod {1, 2, 3, 5, 7, 1000} x 3 steps; serial and pools of 1, 3, 16"));
     run.states = configs;
     run.evaluations = execs;
     run.transitions = execs;
     run.traces_validated = execs;
     run.distinct_nontrivial = err_paths * 17;
-    run.rule = "tier A: {serial_next, par_next} x population size 0..6 x failure plans {none, every single call, every pair of calls} x rayon pool size 1..16, each configuration executed several times on real threads, successful steps followed by two more steps on the same Generation (every step must build on the population the previous step produced), failed steps followed by one more step (fresh randomness, not the failed attempt's words); larger populations (17..257, thorough ..1000) with a reduced failure product; oracle independent of the schedule (size preserved, every child made from the unmodified previous population, pairwise distinct random words, on error: population identical and error among the injected ones). Tier B (merged below when available): all schedules of the rayon model for N <= 3/4. non-trivial = configurations with at least one injected failure".into();
+    run.rule = "tier A: {serial_next, par_next} x population size 0..6 x failure plans {none, every single call, every pair of calls} x rayon pool size 1..16, each configuration executed several times on real threads, successful steps followed by two more steps on the same Generation (every step must build on the population the previous step produced), failed steps followed by one more step (fresh randomness, not the failed attempt's words); larger populations (17..257, thorough ..1000) with a reduced failure product; set populations (BTreeSet, HashSet) whose children collide: every step makes as many children as the population has at that moment and the new population is the set of those children; oracle independent of the schedule (size preserved, every child made from the unmodified previous population, pairwise distinct random words, on error: population identical and error among the injected ones). Tier B (merged below when available): all schedules of the rayon model for N <= 3/4. non-trivial = configurations with at least one injected failure".into();
     run.bound("tierA.max_population", json!(max_n));
     run.bound("tierA.pool_sizes", json!("1..=16"));
     run.bound("tierA.failure_deviation_bound", json!(2));
@@ -398,6 +498,22 @@ pub fn replay(v: &Value) -> bool {
     if v["variant"].as_str() == Some("model") {
         println!("this schedule belongs to the rayon model (tier B); re-run `./check C09` to reproduce it: {v}");
         return false;
+    }
+    if v["variant"].as_str() == Some("set") {
+        let t = v["threads"].as_u64().unwrap_or(0) as usize;
+        let par = v["parallel"].as_bool().unwrap_or(false);
+        let pool = if par && t > 0 { Some(rayon::ThreadPoolBuilder::new().num_threads(t).build().expect("pool")) } else { None };
+        let mut bad = 0;
+        for i in 0..20 {
+            if let Some((k, w)) = set_scenario(par, v["hash"].as_bool().unwrap_or(false), v["n"].as_u64().unwrap_or(0) as usize, v["m"].as_u64().unwrap_or(1), 3, pool.as_ref()) {
+                if bad == 0 {
+                    println!("MISMATCH [{k}] (run {i}): {w}");
+                }
+                bad += 1;
+            }
+        }
+        println!("{} of 20 executions violated the property", bad);
+        return bad == 0;
     }
     let n = v["n"].as_u64().unwrap_or(0) as usize;
     let plan: Vec<usize> = v["fail"].as_array().map(|a| a.iter().filter_map(|x| x.as_u64().map(|y| y as usize)).collect()).unwrap_or_default();
